@@ -31,6 +31,93 @@ def short(name):
     return "::".join(parts[-2:])
 
 
+INLINE_ROOT = "engine::uci::Uci::execute"
+
+
+def _renumber(x, lo, bo):
+    """deep copy of a MIR fact fragment with local indices shifted by `lo` and block indices by `bo`"""
+    if isinstance(x, list):
+        return [_renumber(y, lo, bo) for y in x]
+    if not isinstance(x, dict):
+        return x
+    out = {}
+    for k, v in x.items():
+        if k == "l" and isinstance(v, int):
+            out[k] = v + lo
+        elif k == "idx" and isinstance(v, int):
+            out[k] = v + lo
+        elif k in ("target", "otherwise", "unwind") and isinstance(v, int):
+            out[k] = v + bo
+        elif k == "targets" and isinstance(v, list):
+            out[k] = [[a, b + bo] for a, b in v]
+        elif k == "t" and isinstance(v, str):
+            out[k] = v  # printed form of a place: informational only
+        else:
+            out[k] = _renumber(v, lo, bo)
+    return out
+
+
+def inline_private_helpers(bodies, rounds=2):
+    """Behaviour-preserving normalisation of the fact base: in `Uci::execute` and in the closures defined in it, a call to a
+    *private* function or method of the same file (`engine::uci`) is replaced by a copy of the callee's blocks - parameters
+    become ordinary locals assigned from the call's arguments, `return` becomes an assignment of the callee's `_0` to the
+    call's destination and a jump to the call's target. The callee itself stays in the fact base. This undoes "moved the
+    arm / the thread body / a shared loop into a private helper" refactors for every rule that reads those bodies, instead
+    of teaching each rule to look one call further."""
+    notes = []
+    root = bodies.get(INLINE_ROOT)
+    if root is None:
+        return notes
+    for _round in range(rounds):
+        changed = False
+        callers = [k for k in bodies if k == INLINE_ROOT or k.startswith(INLINE_ROOT + "::{closure")]
+        for ck in callers:
+            cb = bodies[ck]
+            bi = 0
+            while bi < len(cb["blocks"]):
+                t = cb["blocks"][bi]["term"]
+                bi += 1
+                if t.get("k") != "call" or not isinstance(t.get("func"), dict) or t["func"].get("k") != "const":
+                    continue
+                cn = t["func"].get("res") or t["func"].get("fn")
+                callee = bodies.get(cn) if cn else None
+                if callee is None:
+                    # generic-insensitive match
+                    cands = [k for k in bodies if norm(k) == norm(cn or "")]
+                    callee = bodies[cands[0]] if len(cands) == 1 else None
+                    cn = cands[0] if len(cands) == 1 else cn
+                if callee is None or callee is cb or cn == INLINE_ROOT or callee.get("vis_pub") or callee.get("kind") not in ("Fn", "AssocFn"):
+                    continue
+                if callee.get("file") != root.get("file") or not norm(cn).startswith("engine::uci::") or len(callee["blocks"]) > 400:
+                    continue
+                if len(t["args"]) != callee["arg_count"] or "unwind" not in t and "unwind_k" not in t:
+                    continue
+                # recursion guard: the callee must not call itself or the root
+                if any(b2["term"].get("k") == "call" and isinstance(b2["term"].get("func"), dict) and (b2["term"]["func"].get("res") or b2["term"]["func"].get("fn")) in (cn, INLINE_ROOT)
+                       for b2 in callee["blocks"]):
+                    continue
+                lo, bo = len(cb["locals"]), len(cb["blocks"])
+                cb["locals"].extend(_renumber(callee["locals"], 0, 0))
+                new_blocks = _renumber(callee["blocks"], lo, bo)
+                dest, target = t["dest"], t.get("target")
+                for nb in new_blocks:
+                    nt = nb["term"]
+                    if nt.get("k") == "return":
+                        nb["stmts"] = list(nb["stmts"]) + [{"k": "assign", "lhs": dest, "rv": {"k": "use", "ty": callee["locals"][0]["ty"], "op": {"k": "move", "pl": {"l": lo, "p": [], "t": f"_{lo}"}}},
+                                                            "line": nt.get("line"), "inlined": True}]
+                        nb["term"] = {"k": "goto", "target": target, "line": nt.get("line")} if target is not None else {"k": "unreachable", "line": nt.get("line")}
+                cb["blocks"].extend(new_blocks)
+                blk = cb["blocks"][bi - 1]
+                blk["stmts"] = list(blk["stmts"]) + [{"k": "assign", "lhs": {"l": lo + 1 + i, "p": [], "t": f"_{lo + 1 + i}"}, "rv": {"k": "use", "ty": callee["locals"][1 + i]["ty"], "op": a},
+                                                     "line": t.get("line"), "inlined": True} for i, a in enumerate(t["args"])]
+                blk["term"] = {"k": "goto", "target": bo, "line": t.get("line")}
+                notes.append(f"inlined `{norm(cn)}` into `{norm(ck)}` (line {t.get('line')})")
+                changed = True
+        if not changed:
+            break
+    return notes
+
+
 class Facts:
     def __init__(self, path):
         import vocab
@@ -44,6 +131,9 @@ class Facts:
         self.consts = self.raw["consts"]
         self.statics = self.raw["statics"]
         self.impls = self.raw["impls"]
+        # splice private helpers of the UCI command handler back into it (see inline_private_helpers): the rules over
+        # `Uci::execute` and the search-thread closure then see one body whether or not an arm was moved into a method
+        self.inline_notes = inline_private_helpers(self.raw["bodies"])
         self.bodies = {}
         for k, v in self.raw["bodies"].items():
             self.bodies[k] = Body(self, k, v)
